@@ -250,6 +250,15 @@ def stored_and_evicted(ctx, rng):
             else:
                 for o in rng.sample(nodes, max(1, len(nodes) // 2)):
                     o._p_deactivate()
+            if mode == "all":
+                # a fresh connection: the tree is loaded from its records, interior nodes still ghosts
+                t_fresh = Jar(jar.storage).get(t._p_oid)
+                try:
+                    t_fresh._check()
+                    BTrees.check.check(t_fresh)
+                except AssertionError as e:
+                    ctx.oracle_failure("%s:valid-tree-rejected:fresh-reader" % impl, "%s%s/%s sizes=(%d,%d), %d nodes, loaded by a fresh connection: rejected: %s" % (
+                        fn, kind, impl, ml, mi, len(nodes), str(e)[:80]), {"family": fn, "kind": kind, "impl": impl, "sizes": [ml, mi]})
             for name, fn_ in (("_check", t._check), ("check", lambda: BTrees.check.check(t))):
                 if mode != "all":
                     for o in rng.sample(nodes, max(1, len(nodes) // 3)):
